@@ -68,19 +68,22 @@ func c20BLRP(r *enum.R) *c20sdk.Component {
 		}
 		return acc
 	}
-	c.Run = func(ch c20sdk.Choice, alt func(si, src int) *c20sdk.Alt) (res c20sdk.Result) {
+	c.Run = func(ch c20sdk.Choice, alt func(si, src int) *c20sdk.Alt) c20sdk.Result {
+		return c.RunSteps(c20sdk.StepsOf(4, alt))
+	}
+	c.RunSteps = func(steps []c20sdk.Step) (res c20sdk.Result) {
 		var opts []BatchProcessorOption
-		if a := alt(0, 0); a.Present {
-			opts = append(opts, WithMaxQueueSize(int(a.N)))
-		}
-		if a := alt(1, 0); a.Present {
-			opts = append(opts, WithExportMaxBatchSize(int(a.N)))
-		}
-		if a := alt(2, 0); a.Present {
-			opts = append(opts, WithExportInterval(time.Duration(a.N)))
-		}
-		if a := alt(3, 0); a.Present {
-			opts = append(opts, WithExportTimeout(time.Duration(a.N)))
+		for _, st := range steps {
+			switch st.Setting {
+			case 0:
+				opts = append(opts, WithMaxQueueSize(int(st.N)))
+			case 1:
+				opts = append(opts, WithExportMaxBatchSize(int(st.N)))
+			case 2:
+				opts = append(opts, WithExportInterval(time.Duration(st.N)))
+			case 3:
+				opts = append(opts, WithExportTimeout(time.Duration(st.N)))
+			}
 		}
 		exp := &c20Exporter{}
 		var b *BatchProcessor
@@ -141,13 +144,17 @@ func c20LogLimits() *c20sdk.Component {
 			{Kind: "option", Alts: lit()},
 			{Kind: "env", Env: envarAttrValLenLim, Alts: c20sdk.EnvAlts(7, 300, 1, "literal", "literal")}}},
 	}}
-	c.Run = func(ch c20sdk.Choice, alt func(si, src int) *c20sdk.Alt) (res c20sdk.Result) {
+	c.Run = func(ch c20sdk.Choice, alt func(si, src int) *c20sdk.Alt) c20sdk.Result {
+		return c.RunSteps(c20sdk.StepsOf(2, alt))
+	}
+	c.RunSteps = func(steps []c20sdk.Step) (res c20sdk.Result) {
 		var opts []LoggerProviderOption
-		if a := alt(0, 0); a.Present {
-			opts = append(opts, WithAttributeCountLimit(int(a.N)))
-		}
-		if a := alt(1, 0); a.Present {
-			opts = append(opts, WithAttributeValueLengthLimit(int(a.N)))
+		for _, st := range steps {
+			if st.Setting == 0 {
+				opts = append(opts, WithAttributeCountLimit(int(st.N)))
+			} else {
+				opts = append(opts, WithAttributeValueLengthLimit(int(st.N)))
+			}
 		}
 		defer func() {
 			if p := recover(); p != nil {
@@ -162,12 +169,33 @@ func c20LogLimits() *c20sdk.Component {
 	return c
 }
 
+// Variables that are no source of the batch LOG processor: the span batch processor's, the
+// periodic reader's, the exporters' timeouts, near misses of the real names. Every value is a
+// valid number that differs from every default and every value of the alphabets.
+var c20ForeignBLRP = []c20sdk.KV{
+	{"OTEL_BSP_MAX_QUEUE_SIZE", "333"}, {"OTEL_BSP_MAX_EXPORT_BATCH_SIZE", "33"}, {"OTEL_BSP_SCHEDULE_DELAY", "3333"}, {"OTEL_BSP_EXPORT_TIMEOUT", "4444"},
+	{"OTEL_METRIC_EXPORT_INTERVAL", "3333"}, {"OTEL_METRIC_EXPORT_TIMEOUT", "4444"},
+	{"OTEL_EXPORTER_OTLP_TIMEOUT", "4444"}, {"OTEL_EXPORTER_OTLP_LOGS_TIMEOUT", "4444"},
+	{"OTEL_BLRP_QUEUE_SIZE", "333"}, {"OTEL_BLRP_MAX_BATCH_SIZE", "33"}, {"OTEL_BLRP_EXPORT_INTERVAL", "3333"}, {"OTEL_BLRP_TIMEOUT", "4444"},
+	{"OTEL_BLP_MAX_QUEUE_SIZE", "333"}, {"OTEL_BLRP_EXPORT_MAX_BATCH_SIZE", "33"}, {"otel_blrp_max_queue_size", "333"}, {"OTEL_BLRP_SCHEDULE_DELAY_MILLIS", "3333"},
+}
+
+// Variables that are no source of the LOG RECORD limits: the span limits and near misses. (The
+// generic OTEL_ATTRIBUTE_*_LIMIT variables are left out: whether they apply to log records is
+// not part of the statement.)
+var c20ForeignLimits = []c20sdk.KV{
+	{"OTEL_SPAN_ATTRIBUTE_COUNT_LIMIT", "3"}, {"OTEL_SPAN_ATTRIBUTE_VALUE_LENGTH_LIMIT", "3"}, {"OTEL_EVENT_ATTRIBUTE_COUNT_LIMIT", "3"}, {"OTEL_LINK_ATTRIBUTE_COUNT_LIMIT", "3"},
+	{"OTEL_SPAN_EVENT_COUNT_LIMIT", "3"}, {"OTEL_SPAN_LINK_COUNT_LIMIT", "3"},
+	{"OTEL_LOG_ATTRIBUTE_COUNT_LIMIT", "3"}, {"OTEL_LOGS_ATTRIBUTE_COUNT_LIMIT", "3"}, {"OTEL_LOGRECORD_ATTRIBUTE_LIMIT", "3"}, {"OTEL_LOGRECORD_ATTRIBUTE_VALUE_LIMIT", "3"},
+	{"OTEL_LOGRECORD_ATTRIBUTE_COUNT", "3"}, {"otel_logrecord_attribute_count_limit", "3"}, {"OTEL_BLRP_MAX_QUEUE_SIZE", "3"},
+}
+
 func TestVerifC20(t *testing.T) {
 	otel.SetErrorHandler(otel.ErrorHandlerFunc(func(error) {}))
 	otel.SetLogger(logr.Discard())
 	stdlog.SetOutput(io.Discard)
 	shards := c20sdk.New(nil, c20BLRP(nil)).Shards(2)
-	jobs := []string{"limits"}
+	jobs := []string{"limits", "order", "foreign"}
 	for i := range shards {
 		jobs = append(jobs, fmt.Sprintf("blrp:%02d", i))
 	}
@@ -178,6 +206,16 @@ func TestVerifC20(t *testing.T) {
 		r.Section(job)
 		r.Bound("value_classes", "option {absent, valid, zero, negative[, huge]} x env {absent, valid, valid2, zero, negative, non-numeric, huge, empty}")
 		switch {
+		case job == "order":
+			r.Section("order:blrp")
+			c20sdk.New(r, c20BLRP(r)).Order()
+			r.Section("order:limits")
+			c20sdk.New(r, c20LogLimits()).Order()
+		case job == "foreign":
+			r.Section("foreign:blrp")
+			c20sdk.New(r, c20BLRP(r)).Foreign(c20ForeignBLRP)
+			r.Section("foreign:limits")
+			c20sdk.New(r, c20LogLimits()).Foreign(c20ForeignLimits)
 		case job == "limits":
 			x := c20sdk.New(r, c20LogLimits())
 			r.Bound("limits_points", x.Points(4))
